@@ -1125,6 +1125,9 @@ func tryReadRelativeAddrs(raw string, start int) (raddr string, rport, pos int, 
 	}
 
 	raddr, pos = readCandidateStringToken(raw, pos)
+	if raddr == "" {
+		return "", 0, 0, fmt.Errorf("%w: expected raddr value in %s", errParseRelatedAddr, raw)
+	}
 
 	if pos >= len(raw) {
 		return "", 0, 0, fmt.Errorf("%w: expected rport in %s", errParseRelatedAddr, raw)
